@@ -189,12 +189,12 @@ def currentOf : Listing → Option AbsQSong
 /-! ## well-formed listings -/
 
 /-- a field name the protocol can carry -/
-def wfKey (k : Bytes) : Bool := !k.isEmpty && k.all fieldNameChar
+def wfFieldName (k : Bytes) : Bool := !k.isEmpty && k.all fieldNameChar
 
 /-- a line of a song entry: a field name that is not an entry name; attribute values in their domain
 (`ts` = which `Last-Modified` values the build accepts: all without the `chrono` feature) -/
 def wfLine (ts : Bytes → Bool) (kv : Bytes × Bytes) : Bool :=
-  wfKey kv.1 && !entryKeys.contains kv.1 &&
+  wfFieldName kv.1 && !entryKeys.contains kv.1 &&
   (if kv.1 = str "duration" ∨ kv.1 = str "Time" then (seconds kv.2).isSome
    else if kv.1 = str "Range" then (rangeOf kv.2).isSome
    else if kv.1 = str "Prio" then (decimal kv.2).any (· ≤ 255)
